@@ -89,6 +89,9 @@ var probeCompact = []emitted{
 		cSet("i1", "rsum", "three", "rpath", "r2.txt", "rclean", "r2.txt"), cCompact(), cCompact()),
 	hist(cNewEpic("E1"), cSet("i1", "title", "E1 renamed"), cSet("i1", "body", "epic body"), cCompact(), cCompact()),
 	hist(cNewTask("title", "A"), cNewTask("title", "B"), cNewTask("title", "C"), cCompact(), cClaim("a1"), cClaim("a2"), cClaim("a3")),
+	// a line longer than the usual buffer sizes in the middle of shorter ones, across the whole-log writers
+	hist(cNewTask("title", "A", "body", "short"), cSet("i1", "body", "MID"), cNewTask("title", "B"), cSet("i2", "title", "B2"), cCompact(), cListReady(), cCompact()),
+	hist(cNewTask("title", "A", "body", "short"), cSet("i1", "body", "MID"), cSet("i1", "title", "A2"), cPlan("P", "x", "y"), cListReady(), cCompact()),
 	// edges of every kind across a compaction: epic->epic, task->task inside and across epics
 	hist(cNewEpic("E1"), cNewEpic("E2"), cNewTask("title", "A", "epic", "i1"), cNewTask("title", "B", "epic", "i2"), cSeq("i1", "i2"),
 		cCompact(), cListReady(), cClaim("a1"), cClaim("a2"), cCompact()),
